@@ -142,7 +142,7 @@ func (s *c14SlicePatches) NextPatch(context.Context) (tree.Patch, error) {
 }
 func (s *c14SlicePatches) Close() error { return nil }
 
-func c14Case(t *rapid.T, rec *vh.Recorder, wideOnly bool) {
+func c14Case(t *rapid.T, rec *vh.Recorder, wideOnly, knownTail bool) {
 	var ks, vs vt.Schema
 	flavor := "rows"
 	fl := 19
@@ -255,14 +255,19 @@ func c14Case(t *rapid.T, rec *vh.Recorder, wideOnly bool) {
 	// tail shape (see below): decided here because it keeps the other edits few
 	tailShape := false
 	if shapeKind >= 5 && B.Len() > 0 {
-		if cutBase {
+		if cutBase || wideOnly {
 			tailShape = rapid.Bool().Draw(t, "tailOps")
 		} else {
 			tailShape = rapid.IntRange(0, 3).Draw(t, "tailOpsUncut") == 0
 		}
 	}
+	// two cases in three of the tail shape are "pure": no other edits than the tail recipe
+	tailPure := tailShape && rapid.IntRange(0, 2).Draw(t, "tailPure") > 0
 	side := func(g *c12EditGen, label string, d *vt.Dict) []c12Edit {
-		if tailShape && rapid.IntRange(0, 3).Draw(t, label+".quiet") > 0 {
+		if tailPure {
+			return nil
+		}
+		if tailShape && rapid.IntRange(0, 5).Draw(t, label+".quiet") > 0 {
 			return g.script(t, label, d, bounds, rapid.IntRange(0, 3).Draw(t, label+".nops"), weights)
 		}
 		if w.wide {
@@ -340,7 +345,7 @@ func c14Case(t *rapid.T, rec *vh.Recorder, wideOnly bool) {
 			inside := rapid.IntRange(0, 4).Draw(t, "tailInside")
 			before := rapid.IntRange(0, 3).Draw(t, "tailBefore")
 			ad, ag, ae, dd, dg, de := L, gl, &ls, R, gr, &rs
-			if rapid.Bool().Draw(t, "tailAppendOnRight") {
+			if rapid.IntRange(0, 3).Draw(t, "tailAppendOnRight") == 0 {
 				ad, ag, ae, dd, dg, de = R, gr, &rs, L, gl, &ls
 			}
 			put := func(d *vt.Dict, es *[]c12Edit, kk, vv vt.Row) {
@@ -390,7 +395,7 @@ func c14Case(t *rapid.T, rec *vh.Recorder, wideOnly bool) {
 					put(ad, ae, kk, w.genVal(t, "tailAfterRun.v"))
 				}
 			}
-			beforeBoth := rapid.Bool().Draw(t, "tailBeforeBoth")
+			beforeBoth := rapid.Bool().Draw(t, "tailBeforeBoth") && !tailPure
 			for i := 0; i < before; i++ {
 				for si, sd := range []struct {
 					d  *vt.Dict
@@ -400,7 +405,16 @@ func c14Case(t *rapid.T, rec *vh.Recorder, wideOnly bool) {
 						continue
 					}
 					label := fmt.Sprintf("tailBefore%d.%d", i, si)
-					j := B.Len() - 1 - k - rapid.IntRange(0, shiftBack).Draw(t, label+".back")
+					minBack := 0
+					if tailPure {
+						// stay out of the last leaf before the tail: an edit there overlaps the other
+						// side's last node and forces a (correct) split down to rows
+						minBack = 250
+						if w.wide {
+							minBack = 12
+						}
+					}
+					j := B.Len() - 1 - k - minBack - rapid.IntRange(0, shiftBack).Draw(t, label+".back")
 					if j < 0 {
 						continue
 					}
@@ -418,6 +432,9 @@ func c14Case(t *rapid.T, rec *vh.Recorder, wideOnly bool) {
 	// explicit both-sided edits of one key (different values, same value, or delete vs modify)
 	if shapeKind >= 5 {
 		nc := rapid.IntRange(0, 4).Draw(t, "clashes")
+		if tailPure {
+			nc = 0
+		}
 		for i := 0; i < nc; i++ {
 			label := fmt.Sprintf("clash%d", i)
 			k := gb.hotKey(t, label)
@@ -619,8 +636,22 @@ func c14Case(t *rapid.T, rec *vh.Recorder, wideOnly bool) {
 
 	// ---- (a) prolly.MergeMaps
 	var colA []c14Collision
+	// signature of known finding C14-wide-row-merge-non-canonical: the merged map has rows behind
+	// the right side's last key (the right side's last leaf is then patched in as a chunk)
+	tailGate := func() bool {
+		return knownTail && R.Len() > 0 && exp.result.Len() > 0 &&
+			vt.CompareRows(R.E[R.Len()-1].K, exp.result.E[exp.result.Len()-1].K) < 0
+	}
+	excludedKnown := func(why string) {
+		rec.Excluded(1)
+		rec.Case(fmt.Sprintf("%s k=%v v=%v n=%d %s handler=%v: %s", flavor, ks, vs, n, sname, h, why), false, "excluded_known_tail", "flavor="+flavor)
+	}
 	mergedA, _, err := prolly.MergeMaps(ctx, leftM, rightM, baseM, newCollide(&colA))
 	if err != nil {
+		if tailGate() && strings.Contains(err.Error(), "expected patches to be sorted by key") {
+			excludedKnown("MergeMaps fails with unsorted patches (known finding)")
+			return
+		}
 		t.Fatalf("MergeMaps (%s, handler %v): %v", sname, h, err)
 	}
 	checkCollisions("MergeMaps", colA)
@@ -672,7 +703,14 @@ func c14Case(t *rapid.T, rec *vh.Recorder, wideOnly bool) {
 		}
 	}
 	ser := message.NewProllyMapSerializer(vs.Desc, w.ns.Pool())
-	rootB, err := tree.ApplyPatches[val.Tuple](ctx, w.ns, leftM.Node(), ks.Desc, ser, &c14SlicePatches{ps: patches})
+	rootB, err := func() (nd *tree.Node, err error) {
+		defer func() {
+			if r := recover(); r != nil {
+				err = fmt.Errorf("panic: %v", r)
+			}
+		}()
+		return tree.ApplyPatches[val.Tuple](ctx, w.ns, leftM.Node(), ks.Desc, ser, &c14SlicePatches{ps: patches})
+	}()
 	if err != nil {
 		t.Fatalf("ApplyPatches (%d patches, %d range): %v", len(patches), rangePatches, err)
 	}
@@ -687,7 +725,11 @@ func c14Case(t *rapid.T, rec *vh.Recorder, wideOnly bool) {
 	if err != nil {
 		t.Fatalf("bulk expected: %v", err)
 	}
-	if bulkM.HashOf() != mergedA.HashOf() {
+	nonCanonicalKnown := false
+	if bulkM.HashOf() != mergedA.HashOf() && tailGate() {
+		nonCanonicalKnown = true
+		rec.Excluded(1)
+	} else if bulkM.HashOf() != mergedA.HashOf() {
 		sa, _ := w.shape(mergedA)
 		sb, _ := w.shape(bulkM)
 		t.Fatalf("merged map holds the expected content but is not its canonical tree: merged %s height %d nodes/level %v; bulk %s height %d nodes/level %v; %s (%d patches, %d range patches)",
@@ -822,6 +864,9 @@ func c14Case(t *rapid.T, rec *vh.Recorder, wideOnly bool) {
 	if tailShape {
 		cl = append(cl, "tail_shape")
 	}
+	if nonCanonicalKnown {
+		cl = append(cl, "non_canonical_known_tail")
+	}
 	nontrivial := nDiv > 0 && rangePatches > 0 && baseM.Height() >= 2
 	desc := fmt.Sprintf("%s k=%v v=%v n=%d base{%s} %s handler=%v left{%s} right{%s} => left-only=%d right-only=%d convergent=%d divergent=%d patches=%d range=%d",
 		flavor, ks, vs, n, c12Join(gb.ops, 8), sname, h, c12Join(gl.ops, 14), c12Join(gr.ops, 14), nLeft, nRight, nConv, nDiv, len(patches), rangePatches)
@@ -836,7 +881,7 @@ const c14WideFinding = "C14-wide-row-merge-non-canonical"
 // c14PinnedTailCase is the minimised shape of that finding (found by a randomized search over
 // 600 rows of ~510 bytes, 30 edits per side): base keys 2,4..1200 (uint32) with values
 // (uint32, 500 x 'x'); left inserts 1107 and 1187; right deletes 1050..1076 and 1178..1200.
-func c14PinnedTailCase() (merged, bulk string, sameRows bool, err error) {
+func c14PinnedTailCase(variant int) (merged, bulk string, sameRows bool, err error) {
 	ks := vt.NewSchema([]vt.Kind{vt.KUint32}, []bool{false})
 	vs := vt.NewSchema([]vt.Kind{vt.KUint32, vt.KString}, []bool{true, true})
 	w := c12NewWorld(ks, vs)
@@ -848,17 +893,27 @@ func c14PinnedTailCase() (merged, bulk string, sameRows bool, err error) {
 	}
 	B := vt.FromSorted(es)
 	L, R := B.Clone(), B.Clone()
-	L.Put(vt.Row{uint32(1107)}, row(1000817))
-	L.Put(vt.Row{uint32(1187)}, row(1000667))
-	for k := uint32(1050); k <= 1076; k += 2 {
-		R.Delete(vt.Row{k})
+	var ins []uint32
+	var delA, delB [2]uint32
+	if variant == 0 {
+		// shape-only manifestation
+		ins, delA, delB = []uint32{1107, 1187}, [2]uint32{1050, 1076}, [2]uint32{1178, 1200}
+	} else {
+		// same cause, worse symptom: the patches are sent out of key order and the merge fails
+		ins, delA, delB = []uint32{1133, 1191}, [2]uint32{1082, 1106}, [2]uint32{1184, 1200}
 	}
-	for k := uint32(1178); k <= 1200; k += 2 {
-		R.Delete(vt.Row{k})
+	for _, k := range ins {
+		L.Put(vt.Row{k}, row(1000000+k))
+	}
+	for _, d := range [][2]uint32{delA, delB} {
+		for k := d[0]; k <= d[1]; k += 2 {
+			R.Delete(vt.Row{k})
+		}
 	}
 	exp := R.Clone()
-	exp.Put(vt.Row{uint32(1107)}, row(1000817))
-	exp.Put(vt.Row{uint32(1187)}, row(1000667))
+	for _, k := range ins {
+		exp.Put(vt.Row{k}, row(1000000+k))
+	}
 	bm, err := w.bulk(B)
 	if err != nil {
 		return
@@ -894,29 +949,38 @@ func TestVerif_C14(t *testing.T) {
 	defer rec.Write(t)
 	knownTail := false
 	t.Run("pinned_tail_after_split", func(t *testing.T) {
-		merged, bulk, same, err := c14PinnedTailCase()
-		if err != nil {
-			t.Fatalf("pinned case: %v", err)
+		descs := []string{
+			"base keys 2..1200 (600 rows of ~510 bytes), left inserts 1107 and 1187, right deletes 1050..1076 and 1178..1200",
+			"base keys 2..1200 (600 rows of ~510 bytes), left inserts 1133 and 1191, right deletes 1082..1106 and 1184..1200",
 		}
-		if !same {
-			vh.NoteViolation(t.Name(), "", `{"case":"c14PinnedTailCase","failure":"merged rows differ from the key-wise model"}`)
-			t.Fatalf("pinned case: merged rows differ from the model")
-		}
-		if merged != bulk {
-			what := fmt.Sprintf("base keys 2..1200 (600 rows of ~510 bytes), left inserts 1107 and 1187, right deletes 1050..1076 and 1178..1200: MergeMaps gives the expected rows but root %s, their bulk build is %s (right's last leaf ..1176 is kept as a chunk although left's 1187 follows)", merged, bulk)
+		for variant, d := range descs {
+			merged, bulk, same, err := c14PinnedTailCase(variant)
+			var what string
+			switch {
+			case err != nil && strings.Contains(err.Error(), "expected patches to be sorted by key"):
+				what = d + ": MergeMaps fails: patches are sent out of key order (a range patch for right's last leaf, then row patches inside it)"
+			case err != nil:
+				t.Fatalf("pinned case %d: %v", variant, err)
+			case !same:
+				vh.NoteViolation(t.Name(), "", fmt.Sprintf(`{"case":"c14PinnedTailCase(%d)","failure":"merged rows differ from the key-wise model"}`, variant))
+				t.Fatalf("pinned case %d: merged rows differ from the model", variant)
+			case merged != bulk:
+				what = fmt.Sprintf("%s: MergeMaps gives the expected rows but root %s, their bulk build is %s (right's last leaf is kept as a chunk although left has a row behind it)", d, merged, bulk)
+			default:
+				continue
+			}
 			if vh.OpenFinding("C14", c14WideFinding) {
 				vh.ReportKnown("C14", c14WideFinding, what)
 				knownTail = true
-				return
+				continue
 			}
-			vh.NoteViolation(t.Name(), "", fmt.Sprintf(`{"case":"c14PinnedTailCase","merged_root":"%s","bulk_root":"%s","same_rows":true}`, merged, bulk))
-			t.Errorf("merged map is not the canonical tree of its rows: %s", what)
+			vh.NoteViolation(t.Name(), "", fmt.Sprintf(`{"case":"c14PinnedTailCase(%d)","what":%q}`, variant, what))
+			t.Errorf("three-way merge of a valid triple: %s", what)
 		}
 	})
-	_ = knownTail
-	vh.Check(t, "merge", 2400, 2000, func(rt *rapid.T) { c14Case(rt, rec, false) })
+	vh.Check(t, "merge", 2400, 2000, func(rt *rapid.T) { c14Case(rt, rec, false, knownTail) })
 	recW := vh.NewRecorder("C14", "wide", "exploration", c14Rule,
 		"wide-row part: same oracle; rows padded so that a leaf holds 6-15 rows")
 	defer recW.Write(t)
-	vh.Check(t, "wide", 600, 800, func(rt *rapid.T) { c14Case(rt, recW, true) })
+	vh.Check(t, "wide", 600, 800, func(rt *rapid.T) { c14Case(rt, recW, true, knownTail) })
 }
